@@ -376,5 +376,370 @@ theorem specGet_specDel_other (st : StrictTotal gt) {m : List (K × V)} (hd : De
   rw [specGet_eq_some_iff st (desc_specDel st hd k), specGet_eq_some_iff st hd, mem_specDel st hd]
   exact ⟨fun h => h.1, fun h => ⟨h, hne⟩⟩
 
+/-! ### node layer: flatten, routing -/
+
+@[simp] theorem flatten_nil : flatten ([] : List (Node K V)) = [] := rfl
+@[simp] theorem flatten_cons (n : Node K V) (ns : List (Node K V)) : flatten (n :: ns) = n.recs ++ flatten ns := by
+  simp [flatten]
+@[simp] theorem flatten_append (a b : List (Node K V)) : flatten (a ++ b) = flatten a ++ flatten b := by
+  simp [flatten]
+
+@[simp] theorem nodesOk_nil : NodesOk ([] : List (Node K V)) := by intro n hn; cases hn
+
+theorem nodesOk_cons {n : Node K V} {ns : List (Node K V)} :
+    NodesOk (n :: ns) ↔ (n.recs ≠ [] ∧ n.recs.length ≤ cap) ∧ NodesOk ns := by
+  simp only [NodesOk, List.mem_cons]
+  exact ⟨fun h => ⟨h n (Or.inl rfl), fun m hm => h m (Or.inr hm)⟩,
+    fun h m hm => hm.elim (fun e => e ▸ h.1) (h.2 m)⟩
+
+theorem nodesOk_append {a b : List (Node K V)} : NodesOk (a ++ b) ↔ NodesOk a ∧ NodesOk b := by
+  simp only [NodesOk, List.mem_append]
+  exact ⟨fun h => ⟨fun m hm => h m (Or.inl hm), fun m hm => h m (Or.inr hm)⟩,
+    fun h m hm => hm.elim (h.1 m) (h.2 m)⟩
+
+theorem nodeInv_nil : NodeInv gt ([] : List (Node K V)) := ⟨nodesOk_nil, List.Pairwise.nil⟩
+
+theorem nodeInv_tail {n : Node K V} {ns : List (Node K V)} (h : NodeInv gt (n :: ns)) : NodeInv gt ns := by
+  refine ⟨(nodesOk_cons.1 h.1).2, ?_⟩
+  have := h.2
+  rw [flatten_cons, desc_append] at this
+  exact this.2.1
+
+/-- routing to the database block: the key is above everything stored -/
+theorem routeIdx_zero (st : StrictTotal gt) {k : K} {ns : List (Node K V)} (inv : NodeInv gt ns)
+    (h : routeIdx gt k ns = 0) : AllLt gt k (flatten ns) := by
+  cases ns with
+  | nil => simp
+  | cons n rest =>
+    have hn := (nodesOk_cons.1 inv.1).1
+    have hd := inv.2
+    rw [flatten_cons] at hd ⊢
+    cases hr : n.recs with
+    | nil => exact absurd hr hn.1
+    | cons x tl =>
+      obtain ⟨a, av⟩ := x
+      rw [hr, List.cons_append, desc_cons] at hd
+      simp only [routeIdx, hr] at h
+      have hka : gt k a = true := by
+        cases hk : gt k a with
+        | true => rfl
+        | false => simp [hk] at h
+      rw [List.cons_append, allLt_cons]
+      exact ⟨hka, fun y hy => st.trans _ _ _ hka (hd.1 y hy)⟩
+
+/-- routing to a node: the chain splits into nodes above the key, the node whose first key is not
+    below the key, and nodes entirely below the key -/
+theorem routeIdx_succ (st : StrictTotal gt) {k : K} {ns : List (Node K V)} (inv : NodeInv gt ns) {r : Nat}
+    (h : routeIdx gt k ns = r + 1) :
+    ∃ pre lower post, ns = pre ++ lower :: post ∧ pre.length = r ∧
+      AllGt gt k (flatten pre) ∧ AllLt gt k (flatten post) ∧
+      ∃ a av tl, lower.recs = (a, av) :: tl ∧ gt k a = false := by
+  induction ns generalizing r with
+  | nil => simp [routeIdx] at h
+  | cons n rest ih =>
+    have hn := (nodesOk_cons.1 inv.1).1
+    have hd := inv.2
+    cases hr : n.recs with
+    | nil => exact absurd hr hn.1
+    | cons x tl =>
+      obtain ⟨a, av⟩ := x
+      simp only [routeIdx, hr] at h
+      cases hka : gt k a with
+      | true => simp [hka] at h
+      | false =>
+        simp only [hka, Bool.false_eq_true, if_false, Nat.add_right_cancel_iff] at h
+        cases r with
+        | zero =>
+          exact ⟨[], n, rest, rfl, rfl, by simp, routeIdx_zero st (nodeInv_tail inv) h, a, av, tl, hr, hka⟩
+        | succ r' =>
+          obtain ⟨pre, lower, post, e, hl, hg, hlt, a', av', tl', hr', hka'⟩ := ih (nodeInv_tail inv) h
+          refine ⟨n :: pre, lower, post, by rw [e]; rfl, by simp [hl], ?_, hlt, a', av', tl', hr', hka'⟩
+          rw [flatten_cons, allGt_append]
+          refine ⟨?_, hg⟩
+          intro y hy
+          rw [e, flatten_cons, flatten_append, flatten_cons, hr', desc_append] at hd
+          refine st.gt_of_gt_of_not_lt (hd.2.2 y hy (a', av') ?_) hka'
+          simp
+
+theorem findPi_snd (k : K) (recs : List (K × V)) : (findPi gt k recs).2 = findPos gt k recs := by
+  simp only [findPi]; split <;> rfl
+
+theorem findPi_absent {k : K} {recs : List (K × V)}
+    (h : AllLt gt k (recs.drop (findPos gt k recs))) : findPi gt k recs = (false, findPos gt k recs) := by
+  simp only [findPi]
+  split
+  · rename_i a av tl e
+    have : gt k a = true := h (a, av) (by rw [e]; exact List.mem_cons_self ..)
+    simp [this]
+  · rfl
+
+theorem findPi_present (st : StrictTotal gt) {k : K} {recs : List (K × V)} {av : V} {rest : List (K × V)}
+    (h : recs.drop (findPos gt k recs) = (k, av) :: rest) : findPi gt k recs = (true, findPos gt k recs) := by
+  simp only [findPi]
+  rw [h]
+  simp [st.irrefl k]
+
+/-- the whole picture for a key routed to node `r` -/
+theorem lower_split (st : StrictTotal gt) {k : K} {ns : List (Node K V)} (inv : NodeInv gt ns) {r : Nat}
+    (h : routeIdx gt k ns = r + 1) :
+    ∃ pre lower post, ns = pre ++ lower :: post ∧ pre.length = r ∧
+      AllGt gt k (flatten pre ++ lower.recs.take (findPos gt k lower.recs)) ∧
+      ((AllLt gt k (lower.recs.drop (findPos gt k lower.recs) ++ flatten post) ∧
+          findPi gt k lower.recs = (false, findPos gt k lower.recs) ∧ 1 ≤ findPos gt k lower.recs) ∨
+        ∃ av rest, lower.recs.drop (findPos gt k lower.recs) = (k, av) :: rest ∧
+          AllLt gt k (rest ++ flatten post) ∧ findPi gt k lower.recs = (true, findPos gt k lower.recs)) := by
+  obtain ⟨pre, lower, post, e, hl, hg, hlt, a, av, tl, hr, hka⟩ := routeIdx_succ st inv h
+  refine ⟨pre, lower, post, e, hl, ?_⟩
+  have hd := inv.2
+  rw [e, flatten_append, flatten_cons, desc_append, desc_append] at hd
+  have hs := findPos_split st k hd.2.1.1
+  refine ⟨allGt_append.2 ⟨hg, hs.1⟩, ?_⟩
+  rcases hs.2 with h2 | ⟨av', rest, h2, h3⟩
+  · left
+    refine ⟨allLt_append.2 ⟨h2, hlt⟩, findPi_absent h2, ?_⟩
+    cases hi : findPos gt k lower.recs with
+    | zero =>
+      rw [hi, List.drop_zero, hr] at h2
+      have := h2 (a, av) (List.mem_cons_self ..)
+      rw [hka] at this; cases this
+    | succ i => omega
+  · right
+    exact ⟨av', rest, h2, allLt_append.2 ⟨h3, hlt⟩, findPi_present st h2⟩
+
+/-! ### list plumbing -/
+
+theorem getElem?_mid {α : Type} {pre post : List α} {x : α} {r : Nat} (h : pre.length = r) :
+    (pre ++ x :: post)[r]? = some x := by
+  subst h; simp
+
+theorem take_mid {α : Type} {pre post : List α} {x : α} {r : Nat} (h : pre.length = r) :
+    (pre ++ x :: post).take r = pre := by
+  subst h; simp
+
+theorem drop_mid {α : Type} {pre post : List α} {x : α} {r : Nat} (h : pre.length = r) :
+    (pre ++ x :: post).drop (r + 1) = post := by
+  subst h; simp
+
+theorem split_of_getElem? {α : Type} {l : List α} {i : Nat} {x : α} (h : l[i]? = some x) :
+    l = l.take i ++ x :: l.drop (i + 1) := by
+  induction l generalizing i with
+  | nil => simp at h
+  | cons a tl ih =>
+    cases i with
+    | zero => simp at h; subst h; simp
+    | succ i => simp at h; simp; exact ih h
+
+theorem getElem?_of_drop {α : Type} {l : List α} {i : Nat} {x : α} {rest : List α} (h : l.drop i = x :: rest) :
+    l[i]? = some x ∧ l.drop (i + 1) = rest := by
+  have h1 : l[i]? = some x := by rw [← List.head?_drop, h]; rfl
+  refine ⟨h1, ?_⟩
+  have := congrArg List.tail h
+  simpa using this
+
+/-! ### one-step refinement -/
+
+theorem get_refines (st : StrictTotal gt) (d : Db K V) (inv : NodeInv gt d.nodes) (k : K) :
+    get gt d k = specGet gt (flatten d.nodes) k := by
+  cases hr : routeIdx gt k d.nodes with
+  | zero =>
+    have := specGet_absent st (l1 := []) allGt_nil (routeIdx_zero st inv hr)
+    rw [List.nil_append] at this
+    rw [this]; simp [get, hr]
+  | succ r =>
+    obtain ⟨pre, lower, post, e, hl, hg, hc⟩ := lower_split st inv hr
+    have hf : flatten d.nodes = (flatten pre ++ lower.recs.take (findPos gt k lower.recs)) ++
+        (lower.recs.drop (findPos gt k lower.recs) ++ flatten post) := by
+      rw [e, flatten_append, flatten_cons]
+      conv => lhs; rw [← List.take_append_drop (findPos gt k lower.recs) lower.recs]
+      simp only [List.append_assoc]
+    simp only [get, hr, Nat.add_one_ne_zero, if_false, Nat.add_sub_cancel]
+    rw [hf, e, getElem?_mid hl]
+    rcases hc with ⟨h2, hp, _⟩ | ⟨av, rest, h2, h3, hp⟩
+    · rw [specGet_absent st hg h2]; simp [hp]
+    · rw [h2, List.cons_append, specGet_present st av _ hg]
+      simp [hp, (getElem?_of_drop h2).1]
+
+@[simp] theorem mapCurs_nodes (f : CPos → CPos) (d : Db K V) : (mapCurs f d).nodes = d.nodes := rfl
+
+theorem flatten_split (pre post : List (Node K V)) (lower : Node K V) (i : Nat) :
+    flatten (pre ++ lower :: post) = (flatten pre ++ lower.recs.take i) ++ (lower.recs.drop i ++ flatten post) := by
+  rw [flatten_append, flatten_cons]
+  conv => lhs; rw [← List.take_append_drop i lower.recs]
+  simp only [List.append_assoc]
+
+theorem insertAt_hi {α : Type} (l : List α) (p i : Nat) (x : α) (h : p ≤ i) :
+    l.take p ++ ((l.drop p).take (i - p) ++ x :: (l.drop p).drop (i - p)) = l.take i ++ x :: l.drop i := by
+  rw [← List.append_assoc, List.drop_drop]
+  have : p + (i - p) = i := by omega
+  rw [this]
+  congr 1
+  conv => rhs; rw [← this, List.take_add]
+
+theorem insertAt_lo {α : Type} (l : List α) (p i : Nat) (x : α) (h : i ≤ p) :
+    ((l.take p).take i ++ x :: (l.take p).drop i) ++ l.drop p = l.take i ++ x :: l.drop i := by
+  rw [List.take_take, Nat.min_eq_left h, List.append_assoc, List.cons_append]
+  congr 2
+  rw [List.drop_take]
+  have := List.take_append_drop (p - i) (l.drop i)
+  rw [List.drop_drop] at this
+  have e : i + (p - i) = p := by omega
+  rw [e] at this
+  exact this
+
+theorem insertAt_hi' {α : Type} (l t : List α) (p i : Nat) (x : α) (h : p ≤ i) :
+    l.take p ++ ((l.drop p).take (i - p) ++ x :: ((l.drop p).drop (i - p) ++ t)) = l.take i ++ x :: (l.drop i ++ t) := by
+  have := congrArg (· ++ t) (insertAt_hi l p i x h)
+  simpa only [List.append_assoc, List.cons_append] using this
+
+theorem insertAt_lo' {α : Type} (l t : List α) (p i : Nat) (x : α) (h : i ≤ p) :
+    (l.take p).take i ++ x :: ((l.take p).drop i ++ (l.drop p ++ t)) = l.take i ++ x :: (l.drop i ++ t) := by
+  have := congrArg (· ++ t) (insertAt_lo l p i x h)
+  simpa only [List.append_assoc, List.cons_append] using this
+
+theorem put_core (st : StrictTotal gt) (d : Db K V) (inv : NodeInv gt d.nodes) (k : K) (v : V) (lvl : Nat)
+    (res : Db K V × PutOut × Option V) (hres : put gt d k v false lvl = res) :
+    flatten res.1.nodes = specPut gt (flatten d.nodes) k v ∧
+    NodesOk res.1.nodes ∧ res.2.1 = .ok ∧ res.2.2 = specGet gt (flatten d.nodes) k := by
+  obtain ⟨nodes, curs⟩ := d
+  simp only at inv ⊢
+  cases hr : routeIdx gt k nodes with
+  | zero =>
+    have hlt := routeIdx_zero st inv hr
+    have e1 := specGet_absent st (l1 := []) allGt_nil hlt
+    have e2 := specPut_absent st (l1 := []) v allGt_nil hlt
+    rw [List.nil_append] at e1 e2
+    rw [e1, e2]
+    simp only [put, hr, if_true] at hres
+    cases nodes with
+    | nil => subst hres; simp [NodesOk, cap]
+    | cons u rest =>
+      have hu := (nodesOk_cons.1 inv.1)
+      simp only at hres
+      split at hres
+      · rename_i hlen
+        rw [flatten_cons, allLt_append] at hlt
+        have hp : findPi gt k u.recs = ((findPi gt k u.recs).1, 0) := by
+          refine Prod.ext rfl ?_
+          rw [findPi_snd]; exact findPos_zero_of_head (head_not_gt_of_allLt st hlt.1)
+        rw [hp] at hres
+        subst hres
+        simp only [mapCurs_nodes, flatten_cons, insertAt, List.take_zero, List.drop_zero, List.nil_append,
+          List.cons_append, true_and, and_true]
+        rw [nodesOk_cons]
+        refine ⟨⟨by simp, ?_⟩, hu.2⟩
+        simp only [List.length_cons]; omega
+      · subst hres
+        simp only [mapCurs_nodes, flatten_cons, List.cons_append, List.nil_append, true_and, and_true]
+        rw [nodesOk_cons]
+        exact ⟨⟨by simp, by simp [cap]⟩, inv.1⟩
+  | succ r =>
+    obtain ⟨pre, lower, post, e, hl, hg, hc⟩ := lower_split st inv hr
+    have hok := inv.1
+    subst e
+    rw [nodesOk_append, nodesOk_cons] at hok
+    rw [flatten_split pre post lower (findPos gt k lower.recs)]
+    simp only [put, hr, Nat.add_one_ne_zero, if_false, Nat.add_sub_cancel, getElem?_mid hl, take_mid hl,
+      drop_mid hl] at hres
+    generalize findPos gt k lower.recs = i at *
+    rcases hc with ⟨h2, hp, _⟩ | ⟨av, rest, h2, h3, hp⟩
+    · rw [specGet_absent st hg h2, specPut_absent st v hg h2]
+      rw [hp] at hres
+      simp only [Bool.false_eq_true, if_false] at hres
+      split at hres
+      · rename_i hfull
+        have hlen : lower.recs.length = cap := Nat.le_antisymm hok.2.1.2 hfull
+        generalize hb : (decide (i ≥ cap) && upperFree post) = b at hres
+        cases b with
+        | true =>
+          -- add to upper
+          cases post with
+          | nil => simp [upperFree] at hb
+          | cons u rest =>
+            simp only [upperFree, Bool.and_eq_true, decide_eq_true_eq] at hb
+            simp only [if_true] at hres
+            subst hres
+            rw [flatten_cons, ← List.append_assoc, allLt_append, allLt_append] at h2
+            have hp : (findPi gt k u.recs).2 = 0 := by
+              rw [findPi_snd]; exact findPos_zero_of_head (head_not_gt_of_allLt st h2.1.2)
+            have hok' := nodesOk_cons.1 hok.2.2
+            rw [hp]
+            simp only [mapCurs_nodes, flatten_append, flatten_cons, insertAt, List.take_zero, List.drop_zero,
+              List.nil_append, List.append_assoc, List.cons_append, true_and, and_true,
+              List.take_of_length_le (Nat.le_trans (Nat.le_of_eq hlen) hb.1),
+              List.drop_of_length_le (Nat.le_trans (Nat.le_of_eq hlen) hb.1)]
+            rw [nodesOk_append, nodesOk_cons, nodesOk_cons]
+            refine ⟨hok.1, hok.2.1, ⟨by simp, ?_⟩, hok'.2⟩
+            simp only [List.length_cons]; omega
+        | false =>
+          simp only [Bool.false_eq_true, if_false] at hres
+          split at hres
+          · -- fresh node after `lower`
+            rename_i hi
+            subst hres
+            simp only [mapCurs_nodes, flatten_append, flatten_cons, List.append_assoc, List.cons_append,
+              List.nil_append, true_and, and_true, List.take_of_length_le (Nat.le_of_eq hi.symm),
+              List.drop_of_length_le (Nat.le_of_eq hi.symm)]
+            rw [nodesOk_append, nodesOk_cons, nodesOk_cons]
+            exact ⟨hok.1, hok.2.1, ⟨by simp, by simp [cap]⟩, hok.2.2⟩
+          · rename_i hi
+            split at hres
+            · -- split, record goes to the new node
+              rename_i hpv
+              subst hres
+              simp only [mapCurs_nodes, flatten_append, flatten_cons, insertAt, and_true]
+              refine ⟨?_, ?_⟩
+              · simp only [List.append_assoc, List.cons_append]
+                rw [insertAt_hi' lower.recs _ pivot i (k, v) (Nat.le_of_lt hpv)]
+              · rw [nodesOk_append, nodesOk_cons, nodesOk_cons]
+                refine ⟨hok.1, ⟨?_, ?_⟩, ⟨by simp, ?_⟩, hok.2.2⟩
+                · intro h0
+                  have := congrArg List.length h0
+                  simp only [List.length_take, List.length_nil, hlen, cap, pivot] at this
+                  omega
+                · simp only [List.length_take, cap, pivot]; omega
+                · simp only [List.length_append, List.length_cons, List.length_take, List.length_drop, hlen]
+                  simp only [cap, pivot]; omega
+            · -- split, record stays
+              rename_i hpv
+              subst hres
+              simp only [mapCurs_nodes, flatten_append, flatten_cons, insertAt, and_true]
+              refine ⟨?_, ?_⟩
+              · simp only [List.append_assoc, List.cons_append]
+                rw [insertAt_lo' lower.recs _ pivot i (k, v) (Nat.le_of_not_gt hpv)]
+              · rw [nodesOk_append, nodesOk_cons, nodesOk_cons]
+                refine ⟨hok.1, ⟨by simp, ?_⟩, ⟨?_, ?_⟩, hok.2.2⟩
+                · simp only [List.length_append, List.length_cons, List.length_take, List.length_drop, hlen]
+                  simp only [cap, pivot]; omega
+                · intro h0
+                  have := congrArg List.length h0
+                  simp only [List.length_drop, List.length_nil, hlen, cap, pivot] at this
+                  omega
+                · simp only [List.length_drop, hlen, cap, pivot]; omega
+      · subst hres
+        simp only [mapCurs_nodes, flatten_append, flatten_cons, insertAt, List.append_assoc, List.cons_append,
+          true_and, and_true]
+        rw [nodesOk_append, nodesOk_cons]
+        refine ⟨hok.1, ⟨by simp, ?_⟩, hok.2.2⟩
+        simp only [List.length_append, List.length_cons, List.length_take, List.length_drop]
+        omega
+    · rw [h2, List.cons_append, specGet_present st av _ hg, specPut_present st v av _ hg]
+      rw [hp] at hres
+      simp only [if_true, Bool.false_eq_true, if_false] at hres
+      subst hres
+      have hi := getElem?_of_drop h2
+      have hlt : i < lower.recs.length := by
+        have := congrArg List.length h2
+        simp only [List.length_drop, List.length_cons] at this; omega
+      simp only [hi.1, Option.map_some, flatten_append, flatten_cons,
+        List.set_eq_take_append_cons_drop, hlt, if_true, hi.2, List.append_assoc, List.cons_append, true_and,
+        and_true]
+      rw [nodesOk_append, nodesOk_cons]
+      refine ⟨hok.1, ⟨by simp, ?_⟩, hok.2.2⟩
+      have := hok.2.1.2
+      have e : (lower.recs.take i ++ (k, v) :: rest).length = lower.recs.length := by
+        rw [← hi.2, ← List.set_eq_take_append_cons_drop (l := lower.recs) (i := i) (a := (k, v)) |>.trans (if_pos hlt),
+          List.length_set]
+      rw [e]; exact this
+
 end
 end IwModel.Kv
